@@ -4,9 +4,11 @@ import (
 	"crypto/sha256"
 	"fmt"
 	"os"
+	"path/filepath"
 	"sort"
 	"strings"
 	"sync"
+	"time"
 
 	"verifharness/internal/dec"
 	"verifharness/internal/ev"
@@ -176,7 +178,7 @@ func comparePayload(run *ev.Run, prop string, c *gen.Case, f string, pkg *dec.Pa
 			}
 			if pe.MTime != 0 {
 				st.attrs++
-				if e.MTime != pe.MTime {
+				if e.MTime != pe.MTime && !(pe.MTimeAlt != 0 && e.MTime == pe.MTimeAlt) {
 					cls := "package-or-source"
 					if pe.Entry != nil && pe.Entry.FI != nil && pe.Entry.FI.MTime != 0 {
 						cls = "per-entry"
@@ -373,6 +375,7 @@ func c01(run *ev.Run, tier string) {
 		st.bytesHashed += lst.bytesHashed
 		mu.Unlock()
 	})
+	c01Directed(run, &st)
 	run.Set("entries_compared", st.entries)
 	run.Set("attribute_comparisons", st.attrs)
 	run.Set("source_bytes_hashed", st.bytesHashed)
@@ -385,4 +388,100 @@ func c01(run *ev.Run, tier string) {
 	run.Assume("the harness decoders (raw tar walker, ar, gzip member splitter, rpm header + cpio newc parser, klauspost zstd decoder, ulikunitz xz/lzma decoders) read the formats correctly")
 	run.Assume("tree destinations in nfpm's 'owned by filesystem' list, file_info.mode/mtime on tree entries, globs matching directories and dir sources whose files all live in one subdirectory are not explored (expected result not determined by the property)")
 	_ = os.Stdout
+}
+
+// c01Directed: hand-made cases for corners the generator does not reach: the
+// order of a tree and an entry inside its destination, sources reached through
+// symbolic links, names only some tools treat specially.
+func c01Directed(run *ev.Run, st *cmpStats) {
+	root := newWorkDir("c01d")
+	defer removeWorkDir(root)
+	mt := int64(1311111111)
+	mkdir := func(rel string, perm os.FileMode) *gen.Node {
+		p := filepath.Join(root, rel)
+		_ = os.MkdirAll(p, 0o755)
+		_ = os.Chmod(p, perm)
+		return &gen.Node{Rel: rel, Kind: "dir", Perm: perm, MTime: mt}
+	}
+	mkfile := func(rel, body string, perm os.FileMode) *gen.Node {
+		p := filepath.Join(root, rel)
+		_ = os.MkdirAll(filepath.Dir(p), 0o755)
+		_ = os.WriteFile(p, []byte(body), 0o644)
+		_ = os.Chmod(p, perm)
+		return &gen.Node{Rel: rel, Kind: "file", Perm: perm, MTime: mt}
+	}
+	abs := func(n *gen.Node) string { return filepath.Join(root, n.Rel) }
+	// tree source: t/ (0755), t/sub (0750), t/sub/deep (0700), files
+	tRoot := mkdir("t", 0o755)
+	tSub := mkdir("t/sub", 0o750)
+	tDeep := mkdir("t/sub/deep", 0o700)
+	fA := mkfile("t/a.txt", "a\n", 0o644)
+	fB := mkfile("t/sub/b.txt", "b\n", 0o640)
+	fC := mkfile("t/sub/deep/c.txt", "c\n", 0o600)
+	extra := mkfile("extra.txt", "extra\n", 0o644)
+	// symlinked sources
+	realDir := mkdir("realdir", 0o750)
+	realDoc := mkfile("realdoc.md", "doc\n", 0o640)
+	_ = os.Symlink(abs(realDir), filepath.Join(root, "linkdir"))
+	_ = os.Symlink(abs(realDoc), filepath.Join(root, "linkdoc.md"))
+	stamp := func() {
+		_ = filepath.Walk(root, func(p string, fi os.FileInfo, err error) error {
+			if err == nil && fi.Mode()&os.ModeSymlink == 0 {
+				_ = os.Chtimes(p, time.Unix(mt, 0), time.Unix(mt, 0))
+			}
+			return nil
+		})
+	}
+	stamp()
+	treeExp := func(dst string) []gen.Expect {
+		return []gen.Expect{
+			{Dst: dst, Kind: "dir", Node: tRoot}, {Dst: dst + "/sub", Kind: "dir", Node: tSub}, {Dst: dst + "/sub/deep", Kind: "dir", Node: tDeep},
+			{Dst: dst + "/a.txt", Kind: "file", Src: abs(fA), Node: fA}, {Dst: dst + "/sub/b.txt", Kind: "file", Src: abs(fB), Node: fB},
+			{Dst: dst + "/sub/deep/c.txt", Kind: "file", Src: abs(fC), Node: fC},
+		}
+	}
+	file := func(dst string) *gen.Content {
+		return &gen.Content{Src: abs(extra), Dst: dst, Exp: []gen.Expect{{Dst: dst, Kind: "file", Src: abs(extra), Node: extra}}}
+	}
+	tree := func(dst string) *gen.Content {
+		return &gen.Content{Type: "tree", Src: abs(tRoot), Dst: dst, Exp: treeExp(dst)}
+	}
+	type dcase struct {
+		name     string
+		contents []*gen.Content
+	}
+	linkDoc := filepath.Join(root, "linkdoc.md")
+	cases := []dcase{
+		{"entry-inside-tree-destination-listed-first", []*gen.Content{file("/opt/t/sub/extra.txt"), tree("/opt/t")}},
+		{"entry-inside-tree-destination-listed-last", []*gen.Content{tree("/opt/t"), file("/opt/t/sub/deep/extra.txt")}},
+		{"two-entries-inside-tree-destination", []*gen.Content{file("/opt/t/extra0.txt"), file("/opt/t/sub/deep/extra.txt"), tree("/opt/t")}},
+		{"sources-behind-symbolic-links", []*gen.Content{
+			{Type: "dir", Src: filepath.Join(root, "linkdir"), Dst: "/var/lib/d/linked", Exp: []gen.Expect{{Dst: "/var/lib/d/linked", Kind: "dir", Node: realDir}}},
+			{Type: "doc", Src: linkDoc, Dst: "/usr/share/doc/d/README.md", Exp: []gen.Expect{{Dst: "/usr/share/doc/d/README.md", Kind: "file", Src: abs(realDoc), Node: realDoc}}},
+			{Type: "license", Src: linkDoc, Dst: "/usr/share/doc/d/LICENSE", Exp: []gen.Expect{{Dst: "/usr/share/doc/d/LICENSE", Kind: "file", Src: abs(realDoc), Node: realDoc}}},
+		}},
+	}
+	for ci, dc := range cases {
+		for _, umask := range []int64{0, 0o027} {
+			s := &gen.Spec{Name: "directed", Arch: "amd64", Version: "1.0.0", Maintainer: "D <d@example.com>", Description: "d", MTime: 1500000000}
+			s.Umask = umask
+			s.RPM.BuildHost = "verif-host"
+			s.Contents = dc.contents
+			c := &gen.Case{Index: 900000 + ci, Root: root, Tree: gen.NewTree(), Spec: s, Features: map[string]bool{}}
+			for _, f := range formats {
+				run.Case(fmt.Sprintf("directed|%s|umask=%o|%s", dc.name, umask, f), true)
+				res := buildYAML(s.YAML(), f)
+				if res.Err != nil || res.Panic != "" {
+					run.Violate("C01/"+f+"/build-error/directed", map[string]any{"case": dc.name, "error": fmt.Sprint(res.Err, ev.Short(res.Panic, 300))})
+					continue
+				}
+				pkg := dec.Decode(f, res.Bytes, false)
+				if len(pkg.Errs) > 0 {
+					run.Violate("C01/"+f+"/undecodable", map[string]any{"case": dc.name, "errors": pkg.Errs})
+					continue
+				}
+				comparePayload(run, "C01", c, f, pkg, c.Plan(f), st)
+			}
+		}
+	}
 }
